@@ -55,6 +55,28 @@ func c18Run1(schemaText string, input []byte) hx.Result {
 	return hx.Run(schema, strings.NewReader(string(input)), hx.Opts{MaxReads: 3000})
 }
 
+// c18RunPieces: the same, with the input arriving in pieces of the given sizes (the last size repeats).
+func c18RunPieces(schemaText string, input []byte, sizes []int) hx.Result {
+	c18Run1(schemaText, nil) // make sure the schema is cached
+	schema := c18Schemas[schemaText]
+	if schema == nil {
+		return hx.Result{NewTransformErr: "schema rejected"}
+	}
+	var cuts []int
+	pos := 0
+	for i := 0; pos < len(input); i++ {
+		sz := sizes[len(sizes)-1]
+		if i < len(sizes) {
+			sz = sizes[i]
+		}
+		pos += sz
+		if pos < len(input) {
+			cuts = append(cuts, pos)
+		}
+	}
+	return hx.Run(schema, &hx.CutReader{Data: input, Cuts: cuts}, hx.Opts{MaxReads: 3000})
+}
+
 func c18Check(cs c18Case) (sig, detail string) {
 	var a, b hx.Result
 	switch cs.Family {
@@ -69,6 +91,15 @@ func c18Check(cs c18Case) (sig, detail string) {
 	case "bom-default-encoding":
 		a = c18Run1(cs.Schema, append([]byte("\xEF\xBB\xBF"), cs.Input...))
 		b = c18Run1(cs.Schema, cs.Input)
+	case "bom-utf8-arriving-in-pieces":
+		// the three BOM bytes split over the first reads in every way: 1+1+1, 1+2, 2+1, then the rest
+		b = c18Run1(c18WithEncoding(cs.Schema, "utf-8"), cs.Input)
+		for _, sizes := range [][]int{{1, 1, 1, 4096}, {1, 2, 4096}, {2, 1, 4096}, {1}, {2}, {3, 4096}, {4, 4096}} {
+			a = c18RunPieces(c18WithEncoding(cs.Schema, "utf-8"), append([]byte("\xEF\xBB\xBF"), cs.Input...), sizes)
+			if a.NewTransformErr != b.NewTransformErr || !hx.SameSteps(a.Steps, b.Steps) {
+				return "bom-changes-result:" + cs.Item + ":pieces", fmt.Sprintf("%s input BOM+%q delivered in pieces %v:\n%s-- without the BOM:\n%s", cs.Item, cs.Input, sizes, hx.Transcript(a.Steps), hx.Transcript(b.Steps))
+			}
+		}
 	default:
 		a = c18Run1(c18WithEncoding(cs.Schema, cs.Encoding), cs.Input)
 		b = c18Run1(c18WithEncoding(cs.Schema, "utf-8"), c18Decode(cs.Encoding, cs.Input))
@@ -112,7 +143,7 @@ func init() {
 	core.Register(&core.Prop{
 		ID:    "C18",
 		Level: "exploration",
-		Rule:  "for encodings {iso-8859-1, windows-1252} x all seven formats: every byte value 0x00-0xFF in every slot (inside a value, as a whole value, next to a delimiter/quote/newline, at the very start/end of the input) and every pair of bytes from the structurally relevant set (bytes decoding to delimiters, quotes, CR, LF, release character, 0xEF 0xBB 0xBF, 0x80-0x9F, 0xFF); inputs crossing the decoder's 4096-byte buffer, and a 9000-byte ASCII value with high bytes at every 41st (thorough: every) position; thorough: every pair of bytes 0x00-0xFF inside a value; UTF-8 BOM x formats x {BOM+data, BOM only, BOM with the default (absent) encoding, the three BOM bytes under each single-byte encoding}; the transcript with 'encoding: E' on the raw bytes must equal the transcript with 'encoding: utf-8' on the bytes converted with the standard code page, and a leading BOM must change nothing and never appear in the output; distinct by (format, encoding, input)",
+		Rule:  "for encodings {iso-8859-1, windows-1252} x all seven formats: every byte value 0x00-0xFF in every slot (inside a value, as a whole value, next to a delimiter/quote/newline, at the very start/end of the input) and every pair of bytes from the structurally relevant set (bytes decoding to delimiters, quotes, CR, LF, release character, 0xEF 0xBB 0xBF, 0x80-0x9F, 0xFF); inputs crossing the decoder's 4096-byte buffer, and a 9000-byte ASCII value with high bytes at every 41st (thorough: every) position; thorough: every pair of bytes 0x00-0xFF inside a value; UTF-8 BOM x formats x {BOM+data (also with the three BOM bytes split over the first reads in every way), BOM only, BOM with the default (absent) encoding, the three BOM bytes under each single-byte encoding}; the transcript with 'encoding: E' on the raw bytes must equal the transcript with 'encoding: utf-8' on the bytes converted with the standard code page, and a leading BOM must change nothing and never appear in the output; distinct by (format, encoding, input)",
 		Assumptions: []string{
 			"golang.org/x/text/encoding/charmap's batch conversion is the 'standard code page' reference",
 		},
@@ -214,6 +245,9 @@ func init() {
 				for _, tpl := range it.Slots {
 					for _, v := range []string{"v", "é", ""} {
 						body := strings.Replace(tpl, S, v, 1)
+						if !try(c18Case{Item: it.Name, Schema: it.Schema, Encoding: "utf-8", Input: []byte(body), Family: "bom-utf8-arriving-in-pieces"}) {
+							return
+						}
 						if !try(c18Case{Item: it.Name, Schema: it.Schema, Encoding: "utf-8", Input: []byte(body), Family: "bom-utf8"}) ||
 							!try(c18Case{Item: it.Name, Schema: it.Schema, Encoding: "(default)", Input: []byte(body), Family: "bom-default-encoding"}) {
 							return
